@@ -48,6 +48,8 @@ class BlockServer:
         self.code_changed = 0  # later Block2 responses sent with another response code
         self.changed_first = None  # (code, payload) of the first of them
         self.bert_served = 0  # Block2 responses with SZX 7
+        self.b1_opt_missing = 0  # Block1 acknowledgements sent without a Block1 option
+        self.b2_opt_missing = 0  # later Block2 responses sent without a Block2 option
         self.seen = []  # every distinct request: dict(code, b1, b2, plen, t, size1)
         self.transfers = {}  # (src, path) -> Transfer
         self.completed_bodies = []  # (path, bytes) of completely reassembled request bodies
@@ -128,6 +130,20 @@ class BlockServer:
                 ack_num = num + 1
             if self.misbehave == "b1-wrong-num-final" and not more and num > 0:
                 ack_num = num - 1
+            if self.misbehave == "b1-option-missing":
+                # the acknowledgement of a block comes without a Block1 option: a success code (or a bare 2.31) in
+                # answer to a non-final block, which the server took, while the rest of the body is still due; or a bare
+                # 2.31 Continue in answer to the final block, after which nothing is left to continue with
+                where = self.misbehave_arg.get("where", "nonfinal")
+                bare = rc.c(2, 31) if self.misbehave_arg.get("code", "final") == "continue" else (self.success_code if self.success_code is not None else (rc.c(2, 5) if m.code in (1, 5) else rc.c(2, 4)))
+                if more and where == "nonfinal" and idx >= self.misbehave_at:
+                    self.b1_opt_missing += 1
+                    return (bare, [], b"")
+                if not more and where == "final":
+                    self.b1_opt_missing += 1
+                    self.completed_bodies.append((path, bytes(tr.body)))
+                    del self.transfers[tkey]
+                    return (rc.c(2, 31), [], b"")
             if more:
                 extra = [(6, b"\x05")] if (self.misbehave == "b1-observe-in-continue" and idx >= self.misbehave_at) else []
                 return (rc.c(2, 31), extra + [(rc.BLOCK1, rc.block_bytes(ack_num, True, ack_szx))], b"")
@@ -214,6 +230,17 @@ class BlockServer:
             self.code_changed += 1
             if self.changed_first is None:
                 self.changed_first = (code, bytes(chunk))
+        if mis == "b2-option-missing" and offset > 0:
+            # a later block is answered without a Block2 option: under the code of the earlier blocks (or the other
+            # success code) with the slice that was asked for or the whole representation, or as an error response
+            arg = self.misbehave_arg
+            if arg.get("code") is not None:
+                code = arg["code"]
+            payload = {"chunk": chunk, "whole": rep, "diag": b"gone"}[arg.get("payload", "chunk")]
+            self.b2_opt_missing += 1
+            if self.changed_first is None:
+                self.changed_first = (code, bytes(payload))
+            return (code, opts + ([(rc.ETAG, etag)] if etag and arg.get("etag", True) else []), payload)
         self.served.append((offset, len(chunk)))
         if want_szx == 7:
             self.bert_served += 1
